@@ -770,6 +770,12 @@ func (x *World) Exec(i int, op Op) map[string]interface{} {
 			d2, ok := dumpRoundTrip(&d)
 			line["jsonOK"] = ok && reflect.DeepEqual(dumpRec(&d), dumpRec(d2))
 			x.lastDump = d2
+			// every other dump is kept as the object DumpEntities returned (no JSON in between): it is a snapshot,
+			// whatever the dumped world does afterwards
+			x.dumps++
+			if (x.dumps+len(x.issued))%2 == 0 {
+				x.lastDump = &d
+			}
 		})
 	case "Load":
 		// fault action (or legal on a fresh/reset world): load the last dump of this world
